@@ -447,6 +447,15 @@ def extract (s : Store) (g : Val) : Option (Graph Nat) :=
     let es := s.edges.filter fun e => ids.contains e.a && ids.contains e.b
     some { nodes := ns.map fun n => (n.iid, n.attrs), edges := iterFrom es [] ids }
 
+/-- the store invariant all shared-store theorems assume (`StoreInv` in `Proofs/Lemmas/C01Store.lean`), as a
+    Boolean the driver evaluates on every store the harness hands over (`invB_iff` ties the two): internal ids
+    distinct and below `start_id`, every edge between stored nodes. Nothing is said about *which* graphs an edge
+    joins: `merge_nodes` leaves edges that lead from one graph into another. -/
+def invB (s : Store) : Bool :=
+  let ids := s.nodes.map (·.iid)
+  decide ids.Nodup && s.nodes.all (fun n => decide (n.iid < s.nextId)) &&
+    s.edges.all (fun e => ids.contains e.a && ids.contains e.b)
+
 /-- `__del_graph_nl` : `remove_nodes_from` also removes incident edges -/
 def delGraph (s : Store) (g : Val) : Store :=
   let dead := (s.graphNodes g).map (·.iid)
